@@ -428,8 +428,12 @@ class HttpParser(abc.ABC, Generic[_MsgT]):
 
                         assert self.protocol is not None
                         # calculate payload
+                        # A response to a HEAD request never has a body. A HEAD
+                        # *request* is framed like any other request: skipping a
+                        # body it declares would desynchronise the connection.
+                        # https://www.rfc-editor.org/rfc/rfc9112#section-6.3
                         empty_body = code in EMPTY_BODY_STATUS_CODES or bool(
-                            method and method in EMPTY_BODY_METHODS
+                            self.method and self.method in EMPTY_BODY_METHODS
                         )
                         if not empty_body and (
                             (length is not None and length > 0) or msg.chunked
